@@ -465,6 +465,62 @@ def unmarshal_allows_trailing(s):
 
 	return nil""", """	return nil""")
 
+K24_TYPE = """
+// rowIterator walks the members of a row in the order of the keys.
+type rowIterator struct {
+	r       *row
+	current *list.Element
+}
+
+func (r *row) newIterator() *rowIterator {
+	return &rowIterator{r: r, current: r.l.Front()}
+}
+
+func (it *rowIterator) nextValue() (string, Value, bool) {
+	if it.current == nil {
+		return "", nil, false
+	}
+
+	key, _ := it.current.Value.(string)
+	it.current = it.current.Next()
+
+	return key, it.r.m[key], true
+}
+
+func (it *rowIterator) nextRaw() (string, interface{}, bool) {
+	key, val, ok := it.nextValue()
+	if !ok {
+		return "", nil, false
+	}
+
+	return key, val.Raw(), true
+}
+"""
+
+def k24(s):
+    i = s.index("func (r *row) Iter() func() (string, interface{}, bool) {")
+    j = s.index("func (r *row) GetValue(")
+    s = s[:i] + "func (r *row) Iter() func() (string, interface{}, bool) {\n\treturn r.newIterator().nextRaw\n}\n\n" + s[j:]
+    i = s.index("func (r *row) IterValues() func() (string, Value, bool) {")
+    j = s.index("func (r *row) MapTo(")
+    s = s[:i] + "func (r *row) IterValues() func() (string, Value, bool) {\n\treturn r.newIterator().nextValue\n}\n" + K24_TYPE + "\n" + s[j:]
+    return s
+
+def k24_second(s):
+    return sub1(k24(s), "\treturn &rowIterator{r: r, current: r.l.Front()}\n", "\tfirst := r.l.Front()\n\tif first != nil {\n\t\tfirst = first.Next()\n\t}\n\n\treturn &rowIterator{r: r, current: first}\n")
+
+def k24_twice(s):
+    return sub1(k24(s), "\tit.current = it.current.Next()\n", "\tit.current = it.current.Next()\n\tif it.current != nil {\n\t\tit.current = it.current.Next()\n\t}\n")
+
+def k24_not_raw(s):
+    return sub1(k24(s), "\treturn key, val.Raw(), true\n", "\treturn key, val, true\n")
+
+def k24_no_advance(s):
+    return sub1(k24(s), "\tit.current = it.current.Next()\n", "")
+
+def k24_back(s):
+    return sub1(sub1(k24(s), "current: r.l.Front()}", "current: r.l.Back()}"), "\tit.current = it.current.Next()\n", "\tit.current = it.current.Prev()\n")
+
 EDITS = [
  ("H", "clean tree", lambda s: s),
  ("H", "rename locals and the receiver", rename2),
@@ -477,6 +533,7 @@ EDITS = [
  ("H", "MarshalJSON: both marshals first, then one append chain", append_grouping_b),
  ("H", "positional walk written `if index != 0 { index--; continue }; key = …; break`", walk_rewritten),
  ("H", "Import's type switch written as two comma-ok ifs", import_if_chain),
+ ("A", "(K2-4) iterators as bound methods of a small struct", k24),
  ("B", "Set on a present key writes cell.raw in place", set_in_place),
  ("B", "Set becomes `_ = r.ImportAtKey(key, val)`", set_is_import),
  ("B", "SetValue pushes the key unconditionally", push_always),
@@ -497,6 +554,11 @@ EDITS = [
  ("B", "GetInt8 narrows with a plain conversion", getter_conversion),
  ("B", "GetInt16 asserts with the single-value form", getter_single_assert),
  ("B", "MapTo without the CanInt guard", mapto_no_canint),
+ ("B", "(K2-4 shape) the struct iterator starts at the second element", k24_second),
+ ("B", "(K2-4 shape) nextValue advances twice", k24_twice),
+ ("B", "(K2-4 shape) nextRaw hands out the Value, not its raw value", k24_not_raw),
+ ("B", "(K2-4 shape) nextValue does not advance", k24_no_advance),
+ ("B", "(K2-4 shape) the struct iterator walks from the back", k24_back),
  ("B", "(extra) a new method Delete removes the key from list and maps", delete_method),
  ("B", "(extra) Set on a present key moves it to the back", set_moves_to_back),
  ("B", "(extra) Import accepts a Row", import_accepts_row),
@@ -557,7 +619,7 @@ def main():
         open(os.path.join(LEAN, "Gen/RowFacts.lean"), "w").write(saved)
         sh(["lake", "build"] + TARGETS, cwd=LEAN)
     json.dump(rows, open(os.path.join(ROB, "result.json"), "w"), indent=1)
-    bad = [r for r in rows if (r[0] == "H" and not (r[2] == "unchanged" and r[3] == "builds")) or (r[0] == "B" and not (r[2] == "CHANGED" and r[3] == "FAILS"))]
+    bad = [r for r in rows if (r[0] == "A" and r[3] != "builds") or (r[0] == "H" and not (r[2] == "unchanged" and r[3] == "builds")) or (r[0] == "B" and not (r[2] == "CHANGED" and r[3] == "FAILS"))]
     print("UNEXPECTED:", bad)
 
 main()
